@@ -105,19 +105,21 @@ impl EventGen for LoopElement {
                     bbox.extend(bb);
                 }
 
-                if let LoopType::Until(expr) = &loop_def.loop_type {
-                    if eval_condition(expr, context)? {
-                        break;
-                    }
-                }
+                // count the pass just made before looking at the `until` condition, so
+                // that an until-loop cannot run one pass more than the limit
                 iteration += 1;
-                loop_var_value += loop_step;
                 if iteration > context.config.loop_limit {
                     return Err(SvgdxError::LoopLimitError(
                         iteration,
                         context.config.loop_limit,
                     ));
                 }
+                if let LoopType::Until(expr) = &loop_def.loop_type {
+                    if eval_condition(expr, context)? {
+                        break;
+                    }
+                }
+                loop_var_value += loop_step;
             }
         }
         Ok((gen_events, bbox.build()))
